@@ -738,6 +738,21 @@ def equal(I, a, b):
             return h(I, ast.Eq(), a, b)
     if isinstance(a, (SymSeq, list, tuple)) and isinstance(b, (SymSeq, list, tuple)):
         return seq_eq(I, a, b)
+    if (isinstance(a, SymSet) and isinstance(b, (set, frozenset))) or (isinstance(b, SymSet) and isinstance(a, (set, frozenset))):
+        # a symbolic set of ints next to a concrete one: compare as sets (never "different types => unequal")
+        def _lift_eq(s):
+            if isinstance(s, SymSet):
+                return s
+            arr = EMPTY
+            for e in s:
+                if not (isinstance(e, int) or is_sym_int(e)):
+                    return None
+                arr = z3.Store(arr, to_z3(e), True)
+            return SymSet(arr)
+        la, lb = _lift_eq(a), _lift_eq(b)
+        if la is None or lb is None:
+            raise Unsupported("equality of a symbolic set and a set of non-integers")
+        a, b = la, lb
     if isinstance(a, SymSet) and isinstance(b, SymSet):
         return a.arr == b.arr
     num = lambda x: isinstance(x, (int, float, bool)) or isinstance(x, (z3.ArithRef, z3.BoolRef))
@@ -768,6 +783,10 @@ def equal(I, a, b):
     if isinstance(a, Opaque) and isinstance(b, Opaque) and (a.attrs.get("__identity_eq__") or b.attrs.get("__identity_eq__")):
         return a is b            # declared by the harness: objects of a class that does not define __eq__ (e.g. nn.Module)
     if type(a) is not type(b) and not (is_z3(a) or is_z3(b)):
+        # different Python types are unequal - but a SYMBOLIC container next to a concrete one is a representation difference, not a type
+        # difference: never answered "unequal" (that would make a spurious path feasible or a false clause provable)
+        if any(isinstance(x, (SymSet, SymSeq)) or type(x).__name__ in ("SymKeyDict", "SymIntSet", "SymMap", "LoopMap", "MRSeq") for x in (a, b)):
+            raise Unsupported(f"equality on {type(a).__name__}, {type(b).__name__}")
         return False
     raise Unsupported(f"equality on {type(a).__name__}, {type(b).__name__}")
 
